@@ -53,6 +53,8 @@ pub mod c16;
 pub mod c17;
 #[cfg(feature = "c18")]
 pub mod c18;
+#[cfg(feature = "c18a")]
+pub mod c18a;
 #[cfg(feature = "c19")]
 pub mod c19;
 #[cfg(feature = "c20")]
